@@ -1,4 +1,4 @@
-(* tbrun <bin> <current|legacy> <fuel> <maxcycles> [pc=N areg=N breg=N oreg=N fill=BYTE mem:W=V h=0..15]   (stdin = console input)
+(* tbrun <bin> <current|previous|legacy> <fuel> <maxcycles> [pc=N areg=N breg=N oreg=N fill=BYTE mem:W=V h=0..15]   (stdin = console input)
    The extracted TbModel.run (model of hextb.cpp's load()/run()/handleSyscall() over the generated RTL) from a planted
    power-on state; h gives the four hidden trigger bits (bit0 processor prev-clk, bit1 processor prev-rst, bit2 memory
    prev-clk, bit3 memory prev-rst).  Output mirrors harness/tb_harness.cpp:
@@ -17,7 +17,7 @@ let after (s : string) (p : string) : string = SS.sub s (SS.length p) (SS.length
 
 let main () =
   let bin = Sys.argv.(2) in
-  let params = (match Sys.argv.(3) with "legacy" -> TbModel.coq_Legacy | _ -> TbModel.coq_Current) in
+  let params = (match Sys.argv.(3) with "legacy" -> TbModel.coq_Legacy | "previous" -> TbModel.coq_Previous | _ -> TbModel.coq_Current) in
   let fuel = int_of_string Sys.argv.(4) in
   let maxc = int_of_string Sys.argv.(5) in
   let pc = ref 0 and a = ref 0 and b = ref 0 and o = ref 0 and fill = ref 0 and h = ref 0 in
@@ -68,7 +68,7 @@ let main () =
    The ISA run of the image (extracted Isa.step from Isa.boot of the hw image words the header announces) with the
    well-behavedness monitor of C06/C13 (TbModel.wb_mon, with the defined-word set kept in a hash table): every
    instruction defined, fetches/loads only image words or words written earlier, step_safe (byte addresses < 800000, a
-   READ does not overwrite its own SVC, store addresses non-negative), first instruction not a system call.
+   READ does not overwrite its own SVC, store addresses non-negative).
    Output: END exit|cut|undef / RC <exit word as int> / CONSUMED n / OUT n bytes / STEPS n / WB 1|0 <reason> *)
 let mon_main () =
   let bin = Sys.argv.(2) in
@@ -92,7 +92,6 @@ let mon_main () =
   let flag r = if !wb = "" then wb := r in
   let out = Buffer.create 64 in
   let steps = ref 0 and fin = ref "" and rc = ref 0 in
-  if iz (Isa.fetch !st) = 211 then flag "first-instruction-is-a-system-call";
   while !fin = "" do
     if !steps >= maxsteps then fin := "cut" else begin
       let s = !st in
